@@ -4,6 +4,7 @@
 -/
 import Atomman.Generated.Integrators
 import Atomman.C20
+import Proofs.C20_Source
 import Mathlib.Tactic.Module
 import Mathlib.Tactic.Ring
 import Mathlib.Tactic.FieldSimp
@@ -1245,5 +1246,334 @@ theorem rk4_textbook_form (f : V → V) (y : V) (h : K) :
   simp only [rungekutta, Nat.cast_ofNat, Nat.cast_one, smul_smul]
   module
 end textbook
+
+/-! ## the loops of `relax` over whole strings, and `relax` as a whole (`Path.relax`: the definition that
+    `Generated/PathSource.lean` — regenerated from `ISMPath.relax` — is proved equal to, `gen_relax_eq_model`) -/
+section relaxloop
+variable {P L : Type} [LT L] [DecidableLT L]
+
+theorem relaxLoop_zero (step : P → P) (measure : P → P → L) (tol : L) (p : P) :
+    relaxLoop step measure tol 0 p = (p, []) := rfl
+
+/-- a loop makes at most the requested number of passes. -/
+theorem relaxLoop_measures_length_le (step : P → P) (measure : P → P → L) (tol : L) (n : Nat) (p : P) :
+    (relaxLoop step measure tol n p).2.length ≤ n := by
+  induction n generalizing p with
+  | zero => simp [relaxLoop]
+  | succ n ih =>
+    by_cases hd : measure p (step p) < tol
+    · simp [relaxLoop, hd]
+    · have := ih (step p)
+      simp only [relaxLoop, if_neg hd, List.length_cons]
+      omega
+
+/-- whatever every step preserves holds for the string a loop returns. -/
+theorem relaxLoop_invariant (step : P → P) (measure : P → P → L) (tol : L) (I : P → Prop)
+    (hstep : ∀ q, I q → I (step q)) (n : Nat) (p : P) (hp : I p) : I (relaxLoop step measure tol n p).1 := by
+  induction n generalizing p with
+  | zero => exact hp
+  | succ n ih =>
+    by_cases hd : measure p (step p) < tol
+    · simp only [relaxLoop, if_pos hd]; exact hstep p hp
+    · simp only [relaxLoop, if_neg hd]; exact ih (step p) (hstep p hp)
+
+/-- the string a loop returns is the start stepped once per recorded measure. -/
+theorem relaxLoop_eq_iterate (step : P → P) (measure : P → P → L) (tol : L) (n : Nat) (p : P) :
+    (relaxLoop step measure tol n p).1 = step^[(relaxLoop step measure tol n p).2.length] p := by
+  induction n generalizing p with
+  | zero => rfl
+  | succ n ih =>
+    by_cases hd : measure p (step p) < tol
+    · simp [relaxLoop, hd]
+    · simp only [relaxLoop, if_neg hd, List.length_cons, Function.iterate_succ_apply]
+      exact ih (step p)
+
+/-- a loop that made fewer passes than allowed stopped on the convergence test of its last pass. -/
+theorem relaxLoop_stopped_early (step : P → P) (measure : P → P → L) (tol : L) (n : Nat) (p : P)
+    (h : (relaxLoop step measure tol n p).2.length < n) :
+    ∃ d, (relaxLoop step measure tol n p).2.getLast? = some d ∧ d < tol := by
+  induction n generalizing p with
+  | zero => simp at h
+  | succ n ih =>
+    by_cases hd : measure p (step p) < tol
+    · simp only [relaxLoop, if_pos hd]; exact ⟨_, rfl, hd⟩
+    · simp only [relaxLoop, if_neg hd, List.length_cons] at h ⊢
+      obtain ⟨d, hd1, hd2⟩ := ih (step p) (by omega)
+      refine ⟨d, ?_, hd2⟩
+      cases hl : (relaxLoop step measure tol n (step p)).2 with
+      | nil => rw [hl] at hd1; simp at hd1
+      | cons y t => rw [hl] at hd1; simpa [List.getLast?_cons_cons] using hd1
+
+/-- every pass before the last one failed the convergence test. -/
+theorem relaxLoop_measures_before_last (step : P → P) (measure : P → P → L) (tol : L) (n : Nat) (p : P) :
+    ∀ d ∈ (relaxLoop step measure tol n p).2.dropLast, ¬ d < tol := by
+  induction n generalizing p with
+  | zero => simp [relaxLoop]
+  | succ n ih =>
+    by_cases hd : measure p (step p) < tol
+    · simp [relaxLoop, hd]
+    · simp only [relaxLoop, if_neg hd]
+      intro d hmem
+      cases hl : (relaxLoop step measure tol n (step p)).2 with
+      | nil => rw [hl] at hmem; simp at hmem
+      | cons y t =>
+        rw [hl, List.dropLast_cons_cons] at hmem
+        rcases List.mem_cons.mp hmem with rfl | hm
+        · exact hd
+        · exact ih (step p) d (by rw [hl]; exact hm)
+
+end relaxloop
+
+section climbsorted
+variable {L : Type} [LT L] [DecidableLT L]
+
+/-- the climbing images `relax` chooses are increasing interior images: what the re-spacing of `step` needs. -/
+theorem climbIndices_sorted_interior (cp : Nat) (E : List L) :
+    List.Pairwise (· < ·) (0 :: climbIndices cp E) ∧ ∀ c ∈ climbIndices cp E, c + 1 < E.length := by
+  refine ⟨List.pairwise_cons.mpr ⟨fun c hc => (climbIndices_interior_max cp E c hc).1, ?_⟩,
+    fun c hc => (climbIndices_interior_max cp E c hc).2.1⟩
+  exact List.Pairwise.sublist (List.take_sublist _ _) (localMaxima_sorted 0 E)
+
+end climbsorted
+
+section relaxwhole
+variable {K V : Type} [Field K] [CharZero K] [LinearOrder K] [IsStrictOrderedRing K] [AddCommGroup V] [Module K V]
+variable (dot : V → V → K) (sqrt : K → K)
+
+/-- `relax()` without a time step / tolerance is `relax` with the defaults of the string it is called on. -/
+theorem relax_default_options (p : Path V K) (respace : List Nat → List V → List V) (a : RelaxArgs K) :
+    p.relax dot sqrt respace { a with timestep := none, tolerance := none }
+      = p.relax dot sqrt respace { a with timestep := some (Path.defaultTimestep p.coord.length),
+                                          tolerance := some (Path.defaultTolerance p.coord.length) } := rfl
+
+/-- `relax(0, 0)` returns the string it was called on. -/
+theorem relax_zero_steps (p : Path V K) (respace : List Nat → List V → List V) (a : RelaxArgs K)
+    (h1 : a.relaxsteps = 0) (h2 : a.climbsteps = 0) : (p.relax dot sqrt respace a).path = p := by
+  simp only [Path.relax, h1, h2, relaxLoop]
+
+/-- each loop of `relax` makes at most the requested number of steps; at most `climbpoints` images climb. -/
+theorem relax_steps_le (p : Path V K) (respace : List Nat → List V → List V) (a : RelaxArgs K) :
+    (p.relax dot sqrt respace a).relaxMeasures.length ≤ a.relaxsteps ∧
+    (p.relax dot sqrt respace a).climbMeasures.length ≤ a.climbsteps ∧
+    (p.relax dot sqrt respace a).climb.length ≤ a.climbpoints :=
+  ⟨relaxLoop_measures_length_le _ _ _ _ _, relaxLoop_measures_length_le _ _ _ _ _, climbIndices_length_le _ _⟩
+
+/-- the string `relax` returns is the string it was called on with other coordinates: energy function, gradient
+    function, settings and integrator are those of the caller's path, for every re-spacing and all options. -/
+theorem relax_fields (p : Path V K) (respace : List Nat → List V → List V) (a : RelaxArgs K) :
+    ∃ c, (p.relax dot sqrt respace a).path = p.withCoord c := by
+  have hstep : ∀ (h : K) (climb : List Nat) (q : Path V K), (∃ c, q = p.withCoord c) →
+      ∃ c, q.stringStep dot sqrt respace h climb = p.withCoord c := by
+    rintro h climb q ⟨c, rfl⟩
+    exact ⟨_, rfl⟩
+  simp only [Path.relax]
+  apply relaxLoop_invariant _ _ _ (fun q => ∃ c, q = p.withCoord c) (hstep _ _)
+  apply relaxLoop_invariant _ _ _ (fun q => ∃ c, q = p.withCoord c) (hstep _ _)
+  exact ⟨p.coord, rfl⟩
+
+/-- a step with the re-spacing of the code (`splineRespace`, any interpolant) keeps the number of images, for strings of
+    every length ≥ 2 and every admissible set of climbing images. -/
+theorem stringStep_spline_length (p : Path V K) (interp : List K → List V → K → V) (h : K) (climb : List Nat)
+    (hsorted : List.Pairwise (· < ·) (0 :: climb)) (hint : ∀ c ∈ climb, c + 1 < p.coord.length)
+    (hc : 2 ≤ p.coord.length) :
+    (p.stringStep dot sqrt (Path.splineRespace dot sqrt interp) h climb).coord.length = p.coord.length := by
+  have hlen := icoord_length dot sqrt p h climb hc
+  have hne : p.icoord dot sqrt h climb ≠ [] := by
+    intro h0; rw [h0] at hlen; simp at hlen; omega
+  have hα := arccoord_length dot sqrt (p.icoord dot sqrt h climb) hne
+  have hne' : Path.arccoordOf dot sqrt (p.icoord dot sqrt h climb) ≠ [] := by
+    intro h0; rw [h0] at hα; simp at hα; omega
+  simp only [Path.stringStep, Path.withCoord, Path.splineRespace, List.length_map]
+  rw [respaceTargets_length climb _ hne' hsorted (by rw [hα, hlen]; exact hint), hα, hlen]
+
+/-- a pinned image (first, last, climbing) sitting at a critical point is where it was after a step with the
+    re-spacing of the code, for both integrators (the interpolant is only assumed to return its knots). -/
+theorem stringStep_spline_keeps_critical_row (q : Path V K)
+    (hq : q.integratorfxn = (fun r x h => euler r x h) ∨ q.integratorfxn = (fun r x h => rungekutta r x h))
+    (hdot0 : ∀ c, dot 0 c = 0) (interp : List K → List V → K → V)
+    (hknot : ∀ (rows : List V) i (hi : i < rows.length) (a : K), (Path.arccoordOf dot sqrt rows)[i]? = some a →
+      interp (Path.arccoordOf dot sqrt rows) rows a = rows[i])
+    (h : K) (climb : List Nat) (hsorted : List.Pairwise (· < ·) (0 :: climb))
+    (hint : ∀ c ∈ climb, c + 1 < q.coord.length) (hc : 2 ≤ q.coord.length)
+    (i : Nat) (hpin : i = 0 ∨ i + 1 = q.coord.length ∨ i ∈ climb) (x : V) (hx : q.coord[i]? = some x)
+    (hcrit : q.gradPoint x = 0) :
+    (q.stringStep dot sqrt (Path.splineRespace dot sqrt interp) h climb).coord[i]? = some x := by
+  obtain ⟨hi, rfl⟩ := List.getElem?_eq_some_iff.mp hx
+  refine stringStep_critical_pinned_fixed dot sqrt q hq hdot0 (Path.splineRespace dot sqrt interp) h climb hc ?_ i hi hpin hcrit
+  intro rows hlen j hj
+  have hne : rows ≠ [] := by
+    intro h0; rw [h0] at hlen; simp at hlen; omega
+  exact splineRespace_keeps_pinned dot sqrt interp climb hsorted rows (by rw [hlen]; exact hint) hne (hknot rows) j hj
+
+/-- **end to end, ends in the minima stay there**: for a string of any number ≥ 2 of images whose two end images sit at
+    critical points of the energy, `relax` — any numbers of relaxation and climbing steps, any time step and tolerance
+    (given or default), any `climbpoints`, Euler or Runge–Kutta, the climbing images it chooses itself — returns a string
+    with the same number of images and the same two end images.  Only assumption on scipy's spline: it returns its
+    knots. -/
+theorem relax_spline_critical_ends_fixed (p : Path V K)
+    (hp : p.integratorfxn = (fun r x h => euler r x h) ∨ p.integratorfxn = (fun r x h => rungekutta r x h))
+    (hdot0 : ∀ c, dot 0 c = 0) (interp : List K → List V → K → V)
+    (hknot : ∀ (rows : List V) i (hi : i < rows.length) (a : K), (Path.arccoordOf dot sqrt rows)[i]? = some a →
+      interp (Path.arccoordOf dot sqrt rows) rows a = rows[i])
+    (a : RelaxArgs K) (hc : 2 ≤ p.coord.length) (x0 xl : V)
+    (h0 : p.coord[0]? = some x0) (hl : p.coord[p.coord.length - 1]? = some xl)
+    (hcrit0 : p.gradPoint x0 = 0) (hcritl : p.gradPoint xl = 0) :
+    (p.relax dot sqrt (Path.splineRespace dot sqrt interp) a).path.coord.length = p.coord.length ∧
+    (p.relax dot sqrt (Path.splineRespace dot sqrt interp) a).path.coord[0]? = some x0 ∧
+    (p.relax dot sqrt (Path.splineRespace dot sqrt interp) a).path.coord[p.coord.length - 1]? = some xl := by
+  -- the invariant of both loops
+  let I : Path V K → Prop := fun q => (∃ c, q = p.withCoord c) ∧ q.coord.length = p.coord.length ∧
+    q.coord[0]? = some x0 ∧ q.coord[p.coord.length - 1]? = some xl
+  have hstep : ∀ (h : K) (climb : List Nat), List.Pairwise (· < ·) (0 :: climb) →
+      (∀ c ∈ climb, c + 1 < p.coord.length) → ∀ q, I q →
+      I (q.stringStep dot sqrt (Path.splineRespace dot sqrt interp) h climb) := by
+    rintro h climb hsorted hint q ⟨⟨c, rfl⟩, hlen, hq0, hql⟩
+    have hlen' : (p.withCoord c).coord.length = p.coord.length := hlen
+    refine ⟨⟨_, rfl⟩, ?_, ?_, ?_⟩
+    · rw [stringStep_spline_length dot sqrt (p.withCoord c) interp h climb hsorted (by rw [hlen']; exact hint)
+        (by rw [hlen']; exact hc), hlen']
+    · exact stringStep_spline_keeps_critical_row dot sqrt (p.withCoord c) hp hdot0 interp hknot h climb hsorted
+        (by rw [hlen']; exact hint) (by rw [hlen']; exact hc) 0 (Or.inl rfl) x0 hq0 hcrit0
+    · exact stringStep_spline_keeps_critical_row dot sqrt (p.withCoord c) hp hdot0 interp hknot h climb hsorted
+        (by rw [hlen']; exact hint) (by rw [hlen']; exact hc) (p.coord.length - 1)
+        (Or.inr (Or.inl (by rw [hlen']; omega))) xl hql hcritl
+  have hI0 : I p := ⟨⟨p.coord, rfl⟩, rfl, h0, hl⟩
+  -- first loop: no climbing image
+  have h1 := relaxLoop_invariant
+    (fun q : Path V K => q.stringStep dot sqrt (Path.splineRespace dot sqrt interp)
+      (a.timestep.getD (Path.defaultTimestep p.coord.length)) [])
+    (Path.measure dot sqrt (a.timestep.getD (Path.defaultTimestep p.coord.length)))
+    (a.tolerance.getD (Path.defaultTolerance p.coord.length)) I
+    (hstep _ [] (by simp) (by simp)) a.relaxsteps p hI0
+  -- second loop: the climbing images chosen from the energies of the string reached
+  obtain ⟨hs, hin⟩ := climbIndices_sorted_interior a.climbpoints
+    (relaxLoop (fun q : Path V K => q.stringStep dot sqrt (Path.splineRespace dot sqrt interp)
+      (a.timestep.getD (Path.defaultTimestep p.coord.length)) [])
+      (Path.measure dot sqrt (a.timestep.getD (Path.defaultTimestep p.coord.length)))
+      (a.tolerance.getD (Path.defaultTolerance p.coord.length)) a.relaxsteps p).1.energy
+  have hElen : ∀ q : Path V K, q.energy.length = q.coord.length := fun q => by
+    simp [Path.energy, Path.energyAt]
+  rw [hElen, h1.2.1] at hin
+  have h2 := relaxLoop_invariant _ (Path.measure dot sqrt (a.timestep.getD (Path.defaultTimestep p.coord.length)))
+    (a.tolerance.getD (Path.defaultTolerance p.coord.length)) I
+    (hstep (a.timestep.getD (Path.defaultTimestep p.coord.length)) _ hs hin) a.climbsteps _ h1
+  exact h2.2
+
+end relaxwhole
+
+/-! ## construction: which arguments `create_path` / `BasePath.__init__` refuse, and what they select -/
+section construct
+
+theorem resolveGradientfxn_ok_iff (a : FxnArg) :
+    (∃ g, resolveGradientfxn a = .ok g) ↔ a = .callable ∨ a = .name "central_difference" ∨ a = .name "cdiff" := by
+  cases a with
+  | name s =>
+    simp only [resolveGradientfxn, gradientNames, List.lookup]
+    by_cases h1 : s = "central_difference"
+    · subst h1; simp
+    · by_cases h2 : s = "cdiff"
+      · subst h2; simp
+      · have e1 : (s == "central_difference") = false := by simpa using h1
+        have e2 : (s == "cdiff") = false := by simpa using h2
+        simp [e1, e2, h1, h2]
+  | callable => simp [resolveGradientfxn]
+  | other => simp [resolveGradientfxn]
+
+theorem resolveIntegratorfxn_ok_iff (a : FxnArg) :
+    (∃ g, resolveIntegratorfxn a = .ok g) ↔
+      a = .callable ∨ a = .name "rungekutta" ∨ a = .name "rk" ∨ a = .name "euler" := by
+  cases a with
+  | name s =>
+    simp only [resolveIntegratorfxn, integratorNames, List.lookup]
+    by_cases h1 : s = "rungekutta"
+    · subst h1; simp
+    · by_cases h2 : s = "rk"
+      · subst h2; simp
+      · by_cases h3 : s = "euler"
+        · subst h3; simp
+        · have e1 : (s == "rungekutta") = false := by simpa using h1
+          have e2 : (s == "rk") = false := by simpa using h2
+          have e3 : (s == "euler") = false := by simpa using h3
+          simp [e1, e2, e3, h1, h2, h3]
+  | callable => simp [resolveIntegratorfxn]
+  | other => simp [resolveIntegratorfxn]
+
+/-- a name is refused with `ValueError`, something that is neither a name nor callable with `TypeError`. -/
+theorem resolve_error_class (a : FxnArg) :
+    (resolveGradientfxn a = .error .type ↔ a = .other) ∧ (resolveIntegratorfxn a = .error .type ↔ a = .other) := by
+  cases a with
+  | name s =>
+    refine ⟨⟨fun h => ?_, fun h => by cases h⟩, ⟨fun h => ?_, fun h => by cases h⟩⟩
+    · simp only [resolveGradientfxn] at h; split at h <;> cases h
+    · simp only [resolveIntegratorfxn] at h; split at h <;> cases h
+  | callable => simp [resolveGradientfxn, resolveIntegratorfxn]
+  | other => simp [resolveGradientfxn, resolveIntegratorfxn]
+
+/-- **`create_path` accepts exactly** a known style, a callable energy function, a known name or a callable for the
+    gradient function and the integrator, and `None` or a dictionary as settings. -/
+theorem createPath_ok_iff (a : CtorArgs) :
+    (∃ r, createPath a = .ok r) ↔
+      (a.style.getD defaultStyle ∈ styleNames) ∧ a.energyCallable = true ∧
+      (∃ g, resolveGradientfxn (a.gradientfxn.getD defaultGradientfxn) = .ok g) ∧
+      (∃ i, resolveIntegratorfxn (a.integratorfxn.getD defaultIntegratorfxn) = .ok i) ∧
+      a.gradientkwargs.getD defaultGradientkwargs ≠ .other := by
+  simp only [createPath, initPath, List.contains_iff_mem]
+  by_cases hs : a.style.getD defaultStyle ∈ styleNames
+  · simp only [hs, if_true, true_and]
+    by_cases he : a.energyCallable = true
+    · simp only [he, not_true_eq_false, if_false, true_and]
+      cases hg : resolveGradientfxn (a.gradientfxn.getD defaultGradientfxn) with
+      | error e => simp [bind, Except.bind]
+      | ok g =>
+        cases hi : resolveIntegratorfxn (a.integratorfxn.getD defaultIntegratorfxn) with
+        | error e => simp [bind, Except.bind]
+        | ok i =>
+          cases hk : a.gradientkwargs.getD defaultGradientkwargs <;>
+            simp [bind, Except.bind, pure, Except.pure, throw, throwThe, MonadExceptOf.throw]
+    · simp [he, bind, Except.bind, throw, throwThe, MonadExceptOf.throw]
+  · simp [hs]
+
+/-- left at their defaults the options select the central difference, Runge–Kutta and a settings dictionary of the
+    path's own. -/
+theorem createPath_defaults : createPath { energyCallable := true } = .ok (.centralDifference, .rungekutta, true) := by
+  decide
+
+/-- an unknown style is refused before anything else is looked at. -/
+theorem createPath_style_first (a : CtorArgs) (h : a.style.getD defaultStyle ∉ styleNames) :
+    createPath a = .error .value := by
+  simp [createPath, List.contains_iff_mem, h]
+
+/-- with a known style the first failing check of `__init__` decides: a non-callable energy function gives `TypeError`
+    whatever the other arguments are. -/
+theorem createPath_energy_first (a : CtorArgs) (hs : a.style.getD defaultStyle ∈ styleNames) (he : a.energyCallable = false) :
+    createPath a = .error .type := by
+  simp [createPath, initPath, List.contains_iff_mem, hs, he, bind, Except.bind, throw, throwThe, MonadExceptOf.throw]
+
+end construct
+
+section examples5
+/-! non-vacuity of the round-5 statements: a three-image string over `ℚ` on the double well `(x²−1)²`, ends in the minima -/
+def exWell : Path ℚ ℚ :=
+  ⟨[-1, 1/2, 1], fun x => (x * x - 1) * (x * x - 1), fun _ x _ => 4 * x * (x * x - 1), none, fun r x h => euler r x h⟩
+-- hypotheses of `relax_spline_critical_ends_fixed` on this string
+example : exWell.integratorfxn = (fun r x h => euler r x h) ∨ exWell.integratorfxn = (fun r x h => rungekutta r x h) := Or.inl rfl
+example : exWell.coord[0]? = some (-1 : ℚ) ∧ exWell.coord[exWell.coord.length - 1]? = some 1 := ⟨rfl, rfl⟩
+example : exWell.gradPoint (-1) = 0 ∧ exWell.gradPoint 1 = 0 := by constructor <;> norm_num [Path.gradPoint, exWell]
+-- a whole `relax` run (identity re-spacing, `sqrt` replaced by the identity): two relaxation steps, one climbing step;
+-- the middle image is the one that climbs, the ends stay in the minima
+example : (exWell.relax (fun a b => a * b) (fun x => x) (fun _ r => r)
+    { relaxsteps := 2, climbsteps := 1, timestep := some (1/8), tolerance := some 0 }).climb = [1] := by decide +kernel
+example : ((exWell.relax (fun a b => a * b) (fun x => x) (fun _ r => r)
+    { relaxsteps := 2, climbsteps := 1, timestep := some (1/8), tolerance := some 0 }).path.coord[0]?,
+    (exWell.relax (fun a b => a * b) (fun x => x) (fun _ r => r)
+    { relaxsteps := 2, climbsteps := 1, timestep := some (1/8), tolerance := some 0 }).path.coord[2]?) = (some (-1 : ℚ), some (1 : ℚ)) := by
+  decide +kernel
+-- construction: which exception comes first
+example : createPath { energyCallable := true, integratorfxn := some (FxnArg.name "verlet") } = .error .value := by decide
+example : createPath { energyCallable := false, gradientfxn := some (FxnArg.name "nonsense") } = .error .type := by decide
+example : createPath { energyCallable := false, style := some "NEB" } = .error .value := by decide
+example : createPath ⟨true, none, some FxnArg.callable, some KwArg.dict, some (FxnArg.name "euler")⟩
+    = .ok (.user, .euler, false) := by decide
+end examples5
 
 end Atomman.C20
